@@ -87,6 +87,15 @@ Definition drop_all (dead : list string) (c : list (string * fcst)) : list (stri
 (* deleteCondition skips a condition whose Spec.Instance is empty *)
 Definition deletable (p : key * cnd) : bool := negb (String.eqb (snd (fst p)) EmptyString).
 
+(* upstreamsToDelete of the unknown-condition pass: an upstream that is not in the lister and has a
+   condition (the state condition, whose Spec.Instance is "", included) of an instance that is not
+   in the cache *)
+Definition orphan (s : st) (u : string) : bool :=
+  let known := map fst (hb s) in
+  (negb (str_mem u (lister s))
+   && (negb (str_mem EmptyString known)
+       || existsb (fun p : key * cnd => (String.eqb (fst (fst p)) u && negb (str_mem (snd (fst p)) known))%bool) (conds s)))%bool.
+
 Definition step (c : cfg) (lf ah : bool) (s : st) (o : op) : st * res :=
   match o with
   | Heartbeat i => (mkSt (now s) (aset String.eqb i (now s) (hb s)) (conds s) (sums s) (cnts s) (lister s), RNil)
@@ -127,16 +136,10 @@ Definition step (c : cfg) (lf ah : bool) (s : st) (o : op) : st * res :=
       let known := map fst (hb s) in
       let victim := fun p : key * cnd => (negb (str_mem (snd (fst p)) known) && deletable p)%bool in
       let gone := map (fun p : key * cnd => snd (fst p)) (filter victim (conds s)) in
-      (* upstreamsToDelete: an upstream that is not in the lister and has a condition (the state
-         condition, whose Spec.Instance is "", included) of an instance that is not in the cache *)
-      let orphan := fun u : string =>
-        (negb (str_mem u (lister s))
-         && (negb (str_mem EmptyString known)
-             || existsb (fun p : key * cnd => (String.eqb (fst (fst p)) u && negb (str_mem (snd (fst p)) known))%bool) (conds s)))%bool in
       (mkSt (now s) (hb s)
-            (filter (fun p => (negb (victim p) && negb (orphan (fst (fst p))))%bool) (conds s))
-            (filter (fun p : string * Z => negb (orphan (fst p))) (sums s))
-            (filter (fun p : string * fcst => negb (orphan (fst p))) (drop_all gone (cnts s)))
+            (filter (fun p => (negb (victim p) && negb (orphan s (fst (fst p))))%bool) (conds s))
+            (filter (fun p : string * Z => negb (orphan s (fst p))) (sums s))
+            (filter (fun p : string * fcst => negb (orphan s (fst p))) (drop_all gone (cnts s)))
             (lister s), RNil)
   | ClusterGone u =>
       (mkSt (now s) (hb s) (conds s) (sums s) (cnts s) (filter (fun x => negb (String.eqb x u)) (lister s)), RNil)
@@ -144,7 +147,8 @@ Definition step (c : cfg) (lf ah : bool) (s : st) (o : op) : st * res :=
       let l := if str_mem u (lister s) then lister s else u :: lister s in
       match alookup String.eqb u (sums s) with
       | Some _ => (mkSt (now s) (hb s) (conds s) (sums s) (cnts s) l, RNil)
-      | None => (mkSt (now s) (hb s) (conds s) (aset String.eqb u 0 (sums s)) (aset String.eqb u ([], 0) (cnts s)) l, RNil)
+      | None => (mkSt (now s) (hb s) (conds s) (aset String.eqb u 0 (sums s))
+                      (match alookup String.eqb u (cnts s) with Some _ => cnts s | None => aset String.eqb u ([], 0) (cnts s) end) l, RNil)
       end
   end.
 
